@@ -150,9 +150,9 @@ const (
 // To parse a string expressed as a positive or negative fraction.
 // ex: "+1/3" or ex: "-2/3" use ExposureBias.UnmarshalText.
 func NewExposureBias(n int16, d int16) ExposureBias {
-	n = n << 8
-	d = d << 8 >> 8
-	return ExposureBias(n + d)
+	// (the denominator is an unsigned byte: shifting it up and down again in
+	// an int16 sign-extended 128..255 and took one off the numerator)
+	return ExposureBias(n<<8 | d&0xff)
 }
 
 // String returns the value of Exposure Bias as a string
